@@ -101,10 +101,11 @@ Section StepAdv.
     destruct (send_batches (length (due_of m)) c (fired_state m)). reflexivity.
   Qed.
 
-  Lemma fire_R m sp hi :
+  (* the pending timers were not due at some time t0: those due now may be OVERDUE (a late assignment) *)
+  Lemma fire_R t0 m sp hi :
     sp_now sp <= now m -> now m <= hi -> sp_nsid sp = nsid m -> 0 <= now m ->
     vrel c (vars m) (sp_vars sp) (now m) ->
-    timers_ok c (vars m) (timers m) (now m - 1) ->
+    timers_ok c (vars m) (timers m) t0 ->
     subs_ok c (vars m) (nsid m) (now m) (subs m) (sp_subs sp) ->
     (exists w i, In (w, i) (timers m) /\ w <= now m) ->
     exists sp2, fold_left (check_run c None hi) (snd (fire c m)) (sp, []) = (sp2, []) /\
@@ -117,7 +118,7 @@ Section StepAdv.
     assert (Hdue : forall w i, In (w, i) (due_of m) ->
                exists d vr pv, nth_error c i = Some d /\ nth_error (vars m) i = Some vr /\
                                nth_error (sp_vars sp) i = Some pv /\ d_ev d = true /\ v_dfr vr = true /\
-                               var_ok d vr pv t /\ v_last vr + d_rate d = t).
+                               var_ok d vr pv t /\ v_last vr + d_rate d <= t).
     { intros w i Hin. apply filter_In in Hin. destruct Hin as [Hin Hle]. cbn in Hle. apply Z.leb_le in Hle.
       destruct (Htm2 w i Hin) as [d [vr [Hc [Hvr [Hev [Hdf [Hw Hlt]]]]]]].
       destruct (vrel_nth c _ _ _ i d Hv Hc) as [vr' [pv [Hvr' [Hp Hok]]]].
@@ -228,8 +229,8 @@ Section StepAdv.
   Qed.
 
   (* time passes and no timer is due *)
-  Lemma R_wait m sp t' :
-    R c m sp -> now m <= t' -> (forall w i, In (w, i) (timers m) -> t' < w) ->
+  Lemma R_wait t0 m sp t' :
+    Rt c t0 m sp -> now m <= t' -> (forall w i, In (w, i) (timers m) -> t' < w) ->
     R c (set_now m t') (sp_set_now sp t').
   Proof.
     intros [Hnow [Hns [H0 [Hv [Htm Hsubs]]]]] Hle Hall. unfold R.
@@ -240,18 +241,18 @@ Section StepAdv.
     - eapply subs_ok_mono; eauto.
   Qed.
 
-  Lemma advance_R fuel : forall m sp target,
-    R c m sp -> now m <= target -> (length (timers m) < fuel)%nat ->
+  Lemma advance_R fuel : forall t0 m sp target,
+    Rt c t0 m sp -> now m <= target -> (length (timers m) < fuel)%nat ->
     exists sp2, fold_left (check_run c None target) (snd (advance fuel c m target)) (sp, []) = (sp2, []) /\
                 R c (fst (advance fuel c m target)) (sp_set_now sp2 target) /\
                 now (fst (advance fuel c m target)) = target.
   Proof.
-    induction fuel as [|f IH]; intros m sp target HR Hle Hlen; [lia|].
+    induction fuel as [|f IH]; intros t0 m sp target HR Hle Hlen; [lia|].
     cbn [advance].
     assert (Hwait : (forall w i, In (w, i) (timers m) -> target < w) ->
               exists sp2, fold_left (check_run c None target) [] (sp, []) = (sp2, []) /\
                           R c (set_now m target) (sp_set_now sp2 target) /\ now (set_now m target) = target).
-    { intros Hall. exists sp. split; [reflexivity|]. split; [now apply R_wait|reflexivity]. }
+    { intros Hall. exists sp. split; [reflexivity|]. split; [now apply R_wait with (t0 := t0)|reflexivity]. }
     destruct (min_when (timers m)) as [w|] eqn:Emin.
     2:{ apply min_when_none in Emin. cbn [fst snd]. apply Hwait. rewrite Emin. intros w i []. }
     destruct (min_when_some _ _ Emin) as [[i0 Hi0] Hmin].
@@ -259,21 +260,17 @@ Section StepAdv.
     2:{ apply Z.leb_gt in Ew. cbn [fst snd]. apply Hwait. intros w' i Hin. specialize (Hmin w' i Hin). lia. }
     apply Z.leb_le in Ew.
     pose proof HR as [Hnow [Hns [H0 [Hv [Htm Hsubs]]]]].
-    assert (Hlt : now m < w).
-    { destruct Htm as [_ [H2 _]]. destruct (H2 w i0 Hi0) as [d [vr [_ [_ [_ [_ [_ Hlt]]]]]]]. exact Hlt. }
-    replace (Z.max (now m) w) with w by lia.
-    set (m1 := set_now m w).
-    destruct (fire_R m1 sp target) as [sp1 [Hf1 [HR1 [Hn1 Hl1]]]].
+    set (m1 := set_now m (Z.max (now m) w)).
+    destruct (fire_R t0 m1 sp target) as [sp1 [Hf1 [HR1 [Hn1 Hl1]]]].
     - unfold m1. cbn [now set_now]. lia.
     - unfold m1. cbn [now set_now]. lia.
     - exact Hns.
     - unfold m1. cbn [now set_now]. lia.
     - unfold m1. cbn [now vars set_now]. eapply vrel_mono; [|exact Hv]. lia.
-    - unfold m1. cbn [now vars timers set_now]. eapply timers_ok_time; [|exact Htm].
-      intros w' i Hin. specialize (Hmin w' i Hin). lia.
+    - unfold m1. cbn [now vars timers set_now]. exact Htm.
     - unfold m1. cbn [now vars nsid subs set_now]. eapply subs_ok_mono; [|exact Hsubs]. lia.
     - exists w, i0. split; [exact Hi0|]. unfold m1. cbn [now set_now]. lia.
-    - destruct (IH (fst (fire c m1)) sp1 target HR1) as [sp2 [Hf2 [HR2 Hn2]]].
+    - destruct (IH (now (fst (fire c m1))) (fst (fire c m1)) sp1 target HR1) as [sp2 [Hf2 [HR2 Hn2]]].
       + rewrite Hn1. unfold m1. cbn [now set_now]. lia.
       + change (timers m1) with (timers m) in Hl1. lia.
       + rewrite (surjective_pairing (fire c m1)).
@@ -285,7 +282,7 @@ Section StepAdv.
   Proof.
     intros HR. unfold step_ok. cbn [step adv_of].
     pose proof HR as [Hnow _].
-    destruct (advance_R (S (length (timers m))) m sp (now m + Z.of_N dt) HR) as [sp2 [Hf [HR2 Hn2]]]; [lia|lia|].
+    destruct (advance_R (S (length (timers m))) (now m) m sp (now m + Z.of_N dt) HR) as [sp2 [Hf [HR2 Hn2]]]; [lia|lia|].
     rewrite (surjective_pairing (advance _ c m _)). cbn [fst snd]. unfold spec_step. cbn [fst snd chk].
     rewrite Hnow.
     eexists. split; [eapply finish_ok; [exact Hf|exact HR2]|]. split; [exact HR2|exact Hn2].
